@@ -20,7 +20,7 @@ fn counters_for_run(r: usize, cap: usize, ignore: usize) -> (usize, usize) {
 // C15  press gating: inductive step on poll()
 // =====================================================================
 
-// @family prop=C15,C17 name=c15_poll_step macro=c15_poll_step n=3 quick=0,1 thorough=0,1,2 tseeded=0 timeout=3000
+// @family prop=C15,C17,C16 name=c15_poll_step macro=c15_poll_step n=3 quick=0,1 thorough=0,1,2 tseeded=0 timeout=3000
 // @about slice = sample rate {0: 1 kHz (capacity 18, settle 1, lift 2), 1: 2 kHz (35, 2, 4), 2: 10 kHz (171, 10, 20)}: any controller state consistent with an unbroken in-range run of any length r (counters tied to r, press flag <=> r >= capacity+settle-1, both edge latches and the held value symbolic, in-range boundary symbolic in (0,1]; buffer contents do not influence the flags), one poll() with any f32 sample in [0,1]: the run becomes r+1 (in-range) or 0 (out-of-range) and the counters, press flag, edge latches (set exactly on a change of the press flag, otherwise unchanged) and the retained value (unchanged unless a press is being reported) are those the run-length model prescribes; edge getters return the latch and clear only it
 macro_rules! c15_poll_step {
     ($name:ident, $k:expr) => {
